@@ -1607,6 +1607,31 @@ func (s *vSim) scenario7(nextID uint64) uint64 {
 		s.join(nextID, "W")
 	}
 	s.settle(8, nil, nil, nil, nil)
+	// a read on the leader while it reaches one other voter only: two of the four voting members (three voters
+	// and the witness) are no quorum, the read must stay pending
+	if l := s.leaderNode(); l != nil && len(l.peer.raft.witnesses) == 1 && len(l.peer.raft.remotes) == 3 {
+		var a *vNode
+		for _, n := range s.upNodes() {
+			if n.id != l.id && n.kind == "V" {
+				a = n
+				break
+			}
+		}
+		if a != nil {
+			side := map[uint64]bool{l.id: true, a.id: true}
+			split := func(m pb.Message) bool { return side[m.From] != side[m.To] }
+			noTick := map[uint64]bool{}
+			for _, n := range s.upNodes() {
+				if n.id != l.id {
+					noTick[n.id] = true
+				}
+			}
+			s.nextCtx++
+			s.readIndex(l, s.nextCtx)
+			s.settle(3, split, nil, noTick, nil)
+			s.settle(4, nil, nil, nil, nil)
+		}
+	}
 	return nextID + 1
 }
 
